@@ -118,6 +118,20 @@ pub fn run_workload(case: &Case) -> WorkloadRun {
         if matches!(op, Op::Flush) {
             let ok = runner.transcript.len() > tlen && matches!(runner.transcript.last(), Some(model::Res::Unit));
             trace::mark(&dev, if ok { Mark::FlushOk { step } } else { Mark::FlushErr { step } });
+            if case.keys.first().is_some_and(|k| k.starts_with(b"end-")) {
+                if let Some(s) = runner.store.as_ref() {
+                    let snap = s.verif_snapshot();
+                    let blocks = cfg.dev.blocks();
+                    if std::env::var("FXV_DEBUG_END").is_ok() {
+                        eprintln!("END step {step} blocks {blocks} free {:?} records {:?}", snap.free_runs, snap.records.iter().map(|r| (r.sector, layout::record_blocks(snap.format_version, r.key.len(), r.value_len))).collect::<Vec<_>>());
+                    }
+                    if snap.records.iter().any(|r| r.sector != 0 && r.sector + layout::record_blocks(snap.format_version, r.key.len(), r.value_len) as u64 == blocks) {
+                        runner.stats.hit(if ok { "flush_ok_with_record_ending_at_device_end" } else { "flush_err_with_record_ending_at_device_end" });
+                    } else {
+                        runner.stats.hit(if ok { "flush_ok_no_record_at_device_end" } else { "flush_err_no_record_at_device_end" });
+                    }
+                }
+            }
         }
         trace::mark(&dev, Mark::OpEnd { step });
     }
